@@ -8,7 +8,7 @@ if ! git merge --no-edit -q agent-$A >/dev/null 2>&1; then
   for f in $(git diff --name-only --diff-filter=U); do
     case $f in
       coq/_CoqProject|harness/go.mod) git rm -q --cached $f 2>/dev/null || true;;
-      evidence/C15.json|replays/C15/*) git checkout --ours -- $f; git add $f;;
+      evidence/*|replays/*) git checkout --theirs -- $f 2>/dev/null || git checkout --ours -- $f; git add $f;;
     esac
   done
   if [ -n "$(git diff --name-only --diff-filter=U)" ]; then echo "VERIF MERGE CONFLICT"; git diff --name-only --diff-filter=U; exit 1; fi
